@@ -289,7 +289,9 @@ def _parents(node, stop):
 
 def r5_pruning(ctx, rep, R='C15.R5'):
     rep.rule(R, 'pruning: __pycache__ is removed from the directory list of each walk step before '
-             'the walk resumes, so nothing inside __pycache__ is ever examined')
+             'the walk resumes, so nothing inside __pycache__ is ever examined; the set of ignored '
+             'directory names (options.ignore_dir, pruned by walk_with_symlinks) contains the built-in '
+             'version-control names for every option vector')
     fi = ctx.model.func(FN)
     g = ctx.cfg(fi)
     rem = nodes_calling(g, lambda c: isinstance(c.func, ast.Attribute) and c.func.attr == 'remove'
@@ -315,3 +317,7 @@ def r5_pruning(ctx, rep, R='C15.R5'):
     rep.check(ok, R, '__pycache__ removed from dirs in every walk step that has it',
               '__pycache__ directories are descended into: every .pyc there has no .py beside it '
               'and would be deleted', key='pycache', func=fi.qualname, where=ctx.where(fi, fi.node))
+    # "not inside ... an ignored directory": the ignore set that walk_with_symlinks prunes (C14.R4)
+    # always contains the built-in names
+    from . import c14
+    c14.default_ignores_kept(ctx, rep, R)
